@@ -769,6 +769,9 @@ def World.step (w : World) (line : String) : World :=
       let missing := w.acked.filter (fun n => !o.values.contains n)
       if missing.isEmpty then w else
         w.fail "C10" "blocked" s!"peer {p} still lacks valid acknowledged writes {showNums (sortNums missing)} after an honest re-announcement") w
+  | "sub" =>
+    -- C09: a store that does not listen on the topic of its own address shares a channel with other databases
+    w.fail "C09" "channel" s!"peer {toks.getD 1 ""}: a store that was just opened is not subscribed to the topic named by its address"
   | "msg" => w.onMsg toks
   | "delivered" => w.onDelivered toks
   | "restarted" => w.onRestarted toks
